@@ -592,7 +592,7 @@ static const struct { const char* name; const char* args; } OPTAB[] = {
   {"vswap", "ii"}, {"vsetl", "in"}, {"vpusha", "in"}, {"vseta", "in"}, {"vputm", "inn"}, {"vsetm", "inn"},
   {"xcopy", "ii"}, {"xassign", "ii"}, {"xclear", "i"}, {"xsets", "ih"}, {"xelem", "ih"},
   {"pnew", "in"}, {"pcopy", "ii"}, {"passign", "ii"}, {"pclear", "i"}, {"pswap", "ii"}, {"praw", "ii"}, {"pctor", "ii"},
-  {"plink", "ii"}, {"pnext", "i"}, {"pnextof", "ii"},
+  {"plink", "ii"}, {"pnext", "i"}, {"pnextof", "ii"}, {"prawnext", "i"},
   {"vpushv", "ii"}, {"vgetv", "iin"}, {"xaddc", "ii"}, {"xgetc", "iin"}, {"apushv", "ii"}, {"agetv", "iin"},
   {"slitc", "in"}, {"scap", "in"}, {"slitu", "ih"}, {"sconst", "i"}, {"sconstm", "i"}, {"sdetach", "i"}, {"sapps", "ii"},
   {"spluss", "ii"}, {"sappc", "in"}, {"splusc", "in"}, {"spreps", "ii"}, {"supper", "i"},
@@ -813,6 +813,7 @@ static bool execOp(const OpRec& o)
       else target->next = *PL[s - 2];
     }
     else if(!strcmp(n, "pnext")) { if(d < 2 && PN[d]->obj) *PN[d] = (*PN[d])->next; else ok = false; }
+    else if(!strcmp(n, "prawnext")) { if(d < 2 && PN[d]->obj) *PN[d] = (*PN[d])->next.obj; else ok = false; }   // operator=(C*) with a raw pointer that only the released object keeps alive
     else if(!strcmp(n, "pnextof"))
     {
       Node* src = s < 2 ? PN[s]->obj : PL[s - 2]->obj;
